@@ -10,8 +10,10 @@ package server
 //              written, and the result is loaded again.
 //  aofdeadline random (unit, E, grant second, journal second, reload second) through the real AofChannel.Push (command time,
 //              age, remaining lifetime), the real writer/reader (expired-record skip) and the real GetLockCommandExpriedTime.
-//  aofrewrite  the real loadRewriteAofFiles + the individual file-system mutations of clearRewriteAofFiles, with a directory
-//              snapshot after each mutation, each snapshot recovered by the real FindAofFiles + LoadAofFiles.
+//  aofrewrite  (zz_verif_aof_rewrite_test.go) the real loadRewriteAofFiles + the individual file-system mutations of
+//              clearRewriteAofFiles, with a directory snapshot after each mutation, each snapshot recovered by the real
+//              FindAofFiles + LoadAofFiles; records of varying AGE against a real LockDB on a virtual clock.
+//  restart     (zz_verif_aof_restart_test.go) real journal → fresh SLock on a copy of the directory.
 //
 // Nothing here writes outside $VERIF_DATA.
 
@@ -725,205 +727,4 @@ func vDirString(fs []vAofFileImg) string {
 		s[i] = f.name + "=" + vHex(f.rec)
 	}
 	return strings.Join(s, " ")
-}
-
-func vAofKeepKey(buf []byte) string {
-	return vHex(buf[20:53]) // DbId, LockId, LockKey
-}
-
-// filterKept: the records that describe a hold the database still has (the compaction's keep-rule), REWRITED bit ignored.
-func vAofFilterKept(recs []vAofRec, live map[string]bool) string {
-	var out []vAofRec
-	for _, r := range recs {
-		if live[vAofKeepKey(r.buf)] {
-			b := append([]byte{}, r.buf...)
-			b[55] &^= 1
-			out = append(out, vAofRec{b, r.data})
-		}
-	}
-	return vAofRecsString(out)
-}
-
-func (e *vAofEnv) recoverRecs(snap []vAofFileImg, cfgBuf uint, now int64) ([]vAofRec, string) {
-	d := e.freshDir()
-	defer os.RemoveAll(d)
-	for _, f := range snap {
-		if err := os.WriteFile(filepath.Join(d, f.name), f.rec, 0644); err != nil {
-			panic(err)
-		}
-	}
-	save := e.aof.dataDir
-	defer func() { e.aof.dataDir = save }()
-	e.aof.dataDir = d
-	appendFiles, rewriteFile, err := e.aof.FindAofFiles()
-	if err != nil {
-		return nil, "err"
-	}
-	names := []string{}
-	if rewriteFile != "" {
-		names = append(names, rewriteFile)
-	}
-	names = append(names, appendFiles...)
-	got, status := e.load(d, names, cfgBuf, now)
-	if status != "ok" {
-		return got, "err"
-	}
-	return got, "ok"
-}
-
-func init() {
-	vModes["aofrewrite"] = func(t *testing.T) {
-		r := rand.New(rand.NewSource(int64(vEnvInt("VERIF_SEED", 1))))
-		n := vEnvInt("VERIF_N", 20)
-		out := vOpen("aofrewrite")
-		defer out.close()
-		e := vNewAofEnv(out)
-		defer os.RemoveAll(e.root)
-		// a real LockDB with real holds: the compaction's keep-rule is the real LockDB.HasLock
-		db := NewLockDB(e.slock, 0)
-		e.slock.dbs[0] = db
-		conn := NewMemWaiterServerProtocol(e.slock)
-		_ = conn.SetResultCallback(func(p *MemWaiterServerProtocol, cmd *protocol.LockCommand, result uint8, lcount uint16, lrcount uint8, data []byte) error {
-			return nil
-		})
-		live := map[string]bool{}
-		var liveIds [][2][16]byte
-		for i := 0; i < 6; i++ {
-			cmd := conn.GetLockCommand()
-			cmd.CommandType = protocol.COMMAND_LOCK
-			cmd.DbId = 0
-			cmd.LockId = vId16(1000 + i)
-			cmd.LockKey = vId16(2000 + i)
-			cmd.Timeout = 0
-			cmd.Expried = 5
-			cmd.ExpriedFlag = protocol.EXPRIED_FLAG_UNLIMITED_EXPRIED_TIME | protocol.EXPRIED_FLAG_UNLIMITED_AOF_TIME
-			cmd.Count = 0
-			if err := db.Lock(conn, cmd, 0); err != nil {
-				panic(err)
-			}
-			liveIds = append(liveIds, [2][16]byte{cmd.LockId, cmd.LockKey})
-			k := append([]byte{0}, cmd.LockId[:]...)
-			live[vHex(append(k, cmd.LockKey[:]...))] = true
-		}
-		var liveList []string
-		for k := range live {
-			liveList = append(liveList, k)
-		}
-		sort.Strings(liveList)
-		for it := 0; it < n; it++ {
-			now := int64(1700000000 + r.Intn(1000000))
-			cfg := []uint{64, 128, 4096}[r.Intn(3)]
-			Config.AofFileBufferSize = cfg
-			dir := e.freshDir()
-			first := 1 + r.Intn(3)
-			nfiles := 1 + r.Intn(3)
-			mk := func(name string, nrec int) {
-				recs := []vAofRec{}
-				for i := 0; i < nrec; i++ {
-					rec := vAofGenRec(r, now, i, r.Intn(3) == 0)
-					rec.buf[2] = protocol.COMMAND_LOCK
-					rec.buf[19] = 0 // Flag
-					// unlimited expiry: never filtered by time; HasLock then asks "is there a hold with this LockId on this key"
-					rec.buf[57], rec.buf[58], rec.buf[59], rec.buf[60] = 5, 0, 0, 0x40
-					if r.Intn(3) != 0 {
-						id := liveIds[r.Intn(len(liveIds))]
-						rec.buf[20] = 0
-						copy(rec.buf[21:37], id[0][:])
-						copy(rec.buf[37:53], id[1][:])
-					} else if r.Intn(2) == 0 {
-						rec.buf[20] = 0 // db 0, unknown key: dropped
-					} else {
-						rec.buf[20] = 7 // no such db: dropped
-					}
-					recs = append(recs, rec)
-				}
-				e.write(dir, name, cfg, recs, nil)
-			}
-			if r.Intn(2) == 0 {
-				mk("rewrite.aof", r.Intn(3))
-			}
-			for i := 0; i < nfiles; i++ {
-				mk(fmt.Sprintf("append.aof.%d", first+i), 1+r.Intn(3))
-			}
-			cur := first + nfiles
-			mk(fmt.Sprintf("append.aof.%d", cur), r.Intn(2))
-			e.aof.dataDir = dir
-			e.aof.aofFileIndex = uint32(cur)
-			before := vDirSnapshot(dir)
-			inputs, err := e.aof.findRewriteAofFiles()
-			if err != nil {
-				panic(err)
-			}
-			// real: read the inputs, apply the real keep-rule, write rewrite.aof.tmp(.dat)
-			_, _, lerr := e.aof.loadRewriteAofFiles(inputs)
-			if lerr != nil {
-				panic(lerr)
-			}
-			snaps := [][]vAofFileImg{vDirSnapshot(dir)}
-			// real clearRewriteAofFiles, one mutation at a time (same calls, same order as aof.go 2091-2109)
-			for _, fn := range inputs {
-				if err := os.Remove(filepath.Join(dir, fn)); err != nil {
-					continue
-				}
-				snaps = append(snaps, vDirSnapshot(dir))
-				_ = os.Remove(filepath.Join(dir, fn+".dat"))
-				snaps = append(snaps, vDirSnapshot(dir))
-			}
-			_ = os.Rename(filepath.Join(dir, "rewrite.aof.tmp"), filepath.Join(dir, "rewrite.aof"))
-			snaps = append(snaps, vDirSnapshot(dir))
-			_ = os.Rename(filepath.Join(dir, "rewrite.aof.tmp.dat"), filepath.Join(dir, "rewrite.aof.dat"))
-			snaps = append(snaps, vDirSnapshot(dir))
-			// cross-check: the real clearRewriteAofFiles in one go, on a copy of the post-load directory, ends in the same directory
-			{
-				d2 := e.freshDir()
-				for _, f := range snaps[0] {
-					_ = os.WriteFile(filepath.Join(d2, f.name), f.rec, 0644)
-				}
-				e.aof.dataDir = d2
-				e.aof.clearRewriteAofFiles(inputs)
-				end := vDirString(vDirSnapshot(d2))
-				_ = os.RemoveAll(d2)
-				e.aof.dataDir = dir
-				if end != vDirString(snaps[len(snaps)-1]) {
-					e.monitor("C16:harness-steps-differ", "the step-by-step replay of clearRewriteAofFiles ends in a different directory than the real function", map[string]string{"real": end, "steps": vDirString(snaps[len(snaps)-1])})
-				}
-			}
-			// differential: the model's step list applied to `before` must produce the same snapshots (the real compaction filters
-			// expired records at time.Now(); the generated records never expire)
-			op := fmt.Sprintf("aofcompact %d %d %s %s", cfg, cur, strings.Join(liveList, ","), vDirString(before))
-			obs := make([]string, len(snaps))
-			for i, s := range snaps {
-				obs[i] = vDirString(s)
-			}
-			out.emit(op, strings.Join(obs, " | "))
-			// differential + property: recovery of every intermediate directory
-			baseRecs, baseSt := e.recoverRecs(before, cfg, now)
-			showRecover := func(recs []vAofRec, st string) string {
-				if st != "ok" {
-					return "err"
-				}
-				return vAofRecsString(recs) + ";ok"
-			}
-			out.emit(fmt.Sprintf("aofrecover %d %d %s", cfg, now, vDirString(before)), showRecover(baseRecs, baseSt))
-			want := vAofFilterKept(baseRecs, live)
-			for i, s := range snaps {
-				got, st := e.recoverRecs(s, cfg, now)
-				out.emit(fmt.Sprintf("aofrecover %d %d %s", cfg, now, vDirString(s)), showRecover(got, st))
-				have := vAofFilterKept(got, live)
-				if st == "ok" && have == want {
-					continue
-				}
-				replay := map[string]interface{}{"before": vDirString(before), "image": vDirString(s), "recoveredLiveRecords": have, "expectedLiveRecords": want, "step": i, "steps": len(snaps) - 1, "status": st}
-				switch {
-				case i == len(snaps)-1:
-					e.monitor("C16:content", "recovering from the compacted files does not give the live records of the files they replaced", replay)
-				case st != "ok":
-					e.monitor("C16:crash-startup-fails", fmt.Sprintf("a crash after file-system mutation %d of %d of a compaction leaves a directory on which start-up fails", i, len(snaps)-1), replay)
-				default:
-					e.monitor("C16:crash-loses-records", fmt.Sprintf("a crash after file-system mutation %d of %d of a compaction (inputs removed, rewrite.aof.tmp not yet renamed) leaves a directory that recovers fewer live records", i, len(snaps)-1), replay)
-				}
-			}
-			_ = os.RemoveAll(dir)
-		}
-	}
 }
